@@ -23,6 +23,22 @@ INSIDE_EMACS LANG LC_ALL LC_COLLATE LC_CTYPE LC_MESSAGES LC_NUMERIC LC_TIME LINE
 POSIXLY_CORRECT PROMPT_COMMAND PROMPT_DIRTRIM PS0 PS1 PS2 PS3 PS4 SHELL TIMEFORMAT TMOUT TMPDIR auto_resume histchars
 BASH_MONOSECONDS BASH_TRAPSIG GLOBSORT TERM TZ TEXTDOMAIN TEXTDOMAINDIR`)
 
+// c10InheritedEnv: the environment every Bash run of this check inherits (default-named and renamed program alike):
+// ordinary variables of a login session with canary values. A script whose user variable is spelled like one of them
+// must behave as under any other spelling - whatever the caller exported under that name must not reach the
+// program. (Variables that change how bash itself starts - PATH, IFS, ENV, BASH_ENV, SHELLOPTS, LANG, LC_* - are
+// left out: they would change the default-named run as well.)
+var c10InheritedEnv = []string{"HOME=/canary/home", "USER=canaryuser", "LOGNAME=canarylog", "SHELL=/canary/sh", "EDITOR=canaryed", "VISUAL=canaryvis", "PAGER=canarypg",
+	"MAIL=/canary/mail", "HOSTNAME=canaryhost", "DISPLAY=:77", "TMPDIR=/canary/tmp", "XDG_RUNTIME_DIR=/canary/run", "SSH_AUTH_SOCK=/canary/sock", "TERM=canaryterm", "COLUMNS=77", "LINES=33"}
+
+func c10InheritedNames() []string {
+	var out []string
+	for _, kv := range c10InheritedEnv {
+		out = append(out, kv[:strings.Index(kv, "=")])
+	}
+	return out
+}
+
 // cmd.exe: the dynamic variables `set /?` documents (computed on every expansion unless a variable of that name
 // exists), the two undocumented ones with identifier-shaped names, and the standard environment of a Windows
 // session that cmd.exe or the programs it starts read. Offered on the Batch target only.
@@ -37,6 +53,9 @@ LOGONSERVER SESSIONNAME PSMODULEPATH DRIVERDATA DIRCMD COPYCMD`)
 func c10InstalledShellVariables() ([]string, []string) {
 	set := map[string]bool{}
 	for _, v := range c10BashVariables {
+		set[v] = true
+	}
+	for _, v := range c10InheritedNames() {
 		set[v] = true
 	}
 	var extra []string
